@@ -7,10 +7,10 @@ One Lean branch per Go `case`. Go faults are explicit (`Except Fault`): the inte
 `map[string]any`), `sstack[0]` panics on an empty program.
 
 The model is parametrised by `Dev`, the list of operator-level DEVIATIONS from the specification (findings
-C12-uncomparable-panic, C12-neq-float, C12-int-via-float64 — repaired — and, found in round 3 and still in the
-code, C12-iface-field-panic). `Dev.pinned` is the tree as first pinned, `Dev.current` the code after the applied
-`fix:` commits (one flag left: `ifaceTrap`), `Dev.fixed` the code with every proposed fix; switching a flag off
-gives the code with the corresponding fix applied.
+C12-uncomparable-panic, C12-neq-float, C12-int-via-float64 and, found in round 3, C12-iface-field-panic — all
+repaired). `Dev.pinned` is the tree as first pinned, `Dev.current` the code after the applied `fix:` commits (no
+flag left since 6d0c31a), `Dev.before6d0c31a` the code just before that commit; switching a flag off gives the
+code with the corresponding fix applied.
 
 Round 3: operands may be TYPED Go values (`Val.ext`, Script/Num.lean): the `Normalize` switch / `normalize()` are
 `Val.norm`, applied to everything a path yields (`resolveItem`); template constants are produced by the exported
@@ -48,7 +48,7 @@ structure Dev where
   viaF64 : Bool
   /-- `sameValue` trusts the comparability of the TYPE: two struct/array values that hold a slice or map in an
   interface-typed field reach Go `==` and panic (finding C12-iface-field-panic, round 3; present in every
-  version so far, repaired by the proposed fix notes/proposed_fixes/C12_iface_field_panic.md) -/
+  version up to 6d0c31a, which compares struct/array kinds under recover: `sameHolder`) -/
   ifaceTrap : Bool
   deriving DecidableEq, Inhabited
 
@@ -56,9 +56,11 @@ structure Dev where
 def Dev.pinned : Dev := ⟨true, true, true, true⟩
 /-- the code between 21415f8 and 24fcf54: only the int-via-float64 deviation left -/
 def Dev.before24fcf54 : Dev := ⟨false, false, true, true⟩
-/-- the code as it is now (after 24fcf54, `cmpIntFloat`): one deviation left, found in round 3 (`ifaceTrap`) -/
-def Dev.current : Dev := ⟨false, false, false, true⟩
-/-- every known deviation repaired (the current code with the proposed fix C12_iface_field_panic) -/
+/-- the code between 24fcf54 and 6d0c31a: only the round-3 deviation `ifaceTrap` left -/
+def Dev.before6d0c31a : Dev := ⟨false, false, false, true⟩
+/-- the code as it is now (after 6d0c31a, `sameHolder`): no deviation left; the same as `Dev.fixed` -/
+def Dev.current : Dev := ⟨false, false, false, false⟩
+/-- every known deviation repaired -/
 def Dev.fixed : Dev := ⟨false, false, false, false⟩
 
 /-- Go `==` can be reached by a left operand `l` of an uncomparable dynamic type: always before 0a3fd2c; since
@@ -103,8 +105,9 @@ func sameValue(left, right any) bool {
 type), `comparable` the reflect test on the LEFT operand, `sameValue` the guarded comparison. The shape of
 the guard (a reflect `Comparable()` test on the left operand's type, no list of types) is the regenerated
 fact `Gen.Script.sameValueShape` (theorem `C12.same_value_shape_ok`). `ifaceEq d` is `goEq` when
-`d.uncmp` (before 0a3fd2c), `sameValue` for the current code, and `sameValueFix` (the guard also catches the
-values whose `==` is unsafe although their type is comparable) with the proposed fix (`ifaceEq_eq_sameValue`). -/
+`d.uncmp` (before 0a3fd2c), `sameValue` between 0a3fd2c and 6d0c31a, and `sameValueFix` (struct/array kinds
+compared under recover, so the values whose `==` is unsafe although their type is comparable are simply unequal)
+since 6d0c31a (`ifaceEq_eq_sameValue`). The Go text quoted above is the one before 6d0c31a. -/
 
 /-- `reflect.TypeOf(v).Comparable()`; the nil interface has no type (`lt == nil`: the guard is skipped) -/
 def comparable : Val → Bool
